@@ -209,16 +209,22 @@ class Polarization(BaseState):
         ):
             assert isinstance(self.state, jnp.ndarray)
             assert self.state.shape == (self.dimensions, 1)
-            if jnp.allclose(self.state, jnp.array([[1], [0]])):
+            if jnp.allclose(self.state, jnp.array([[1], [0]]), rtol=0, atol=tol):
                 self.state = PolarizationLabel.H
-            elif jnp.allclose(self.state, jnp.array([[0], [1]])):
+            elif jnp.allclose(self.state, jnp.array([[0], [1]]), rtol=0, atol=tol):
                 self.state = PolarizationLabel.V
             elif jnp.allclose(
-                self.state, jnp.array([[1 / jnp.sqrt(2)], [1j / jnp.sqrt(2)]])
+                self.state,
+                jnp.array([[1 / jnp.sqrt(2)], [1j / jnp.sqrt(2)]]),
+                rtol=0,
+                atol=tol,
             ):
                 self.state = PolarizationLabel.R
             elif jnp.allclose(
-                self.state, jnp.array([[1 / jnp.sqrt(2)], [-1j / jnp.sqrt(2)]])
+                self.state,
+                jnp.array([[1 / jnp.sqrt(2)], [-1j / jnp.sqrt(2)]]),
+                rtol=0,
+                atol=tol,
             ):
                 self.state = PolarizationLabel.L
             if isinstance(self.state, PolarizationLabel):
